@@ -1347,7 +1347,7 @@ def remove_redundant_transpose_add_forests_ir(graph: ir.Graph) -> None:
                     continue
                 if _consumer_nodes(live_nodes, t_out):
                     continue
-                if t_out.is_graph_output():
+                if _value_is_observed(graph, live_nodes, t_out):
                     continue
                 removable_inputs.append(in_transpose)
             if removable_inputs:
@@ -2358,9 +2358,9 @@ def rewrite_mul_sigmoid_as_swish_ir(graph: ir.Graph) -> None:
             )
             graph.remove(node)
             remaining_nodes = list(graph)
-            if not _value_is_graph_output(graph, sigmoid_out) and not _consumer_nodes(
-                remaining_nodes, sigmoid_out
-            ):
+            if not _value_is_observed(
+                graph, remaining_nodes, sigmoid_out
+            ) and not _consumer_nodes(remaining_nodes, sigmoid_out):
                 graph.remove(sigmoid_node)
             changed = True
             break
@@ -2688,6 +2688,10 @@ def remove_orphan_transposes_ir(graph: ir.Graph) -> None:
                     is_live = True
                     break
                 if _has_named_consumer(nodes, producer=node, output_name=out_name):
+                    is_live = True
+                    break
+                if _nested_graph_references_value(nodes, out):
+                    # Only read from inside a Loop/If body: still live.
                     is_live = True
                     break
 
